@@ -37,6 +37,7 @@ def rsvd_cases(draw, tier):
         kind = "pattern:" + pat
     R = draw(st.integers(1, k))
     algo = draw(st.sampled_from(["rand_qsvd", "pass_eff_qsvd"]))
+    A = A * 10.0 ** draw(st.sampled_from([0, 0, 0, 0, -12, -9, -4, 4, 9]))     # the property is scale free
     return {"A": np.ascontiguousarray(A), "kind": kind, "R": R, "algo": algo,
             "oversample": draw(st.sampled_from([0, 1, 2, 3, 5, 10])),
             "n_iter": draw(st.integers(0, 3)), "n_passes": draw(st.integers(2, 5)),
